@@ -92,7 +92,9 @@ from .asttypes import (
     LtE,
     MatMult,
     Match,
+    MatchAs,
     MatchMapping,
+    MatchStar,
     MatchSequence,
     MatchClass,
     Mod,
@@ -209,7 +211,8 @@ _LOC_FUNCS = {  # quick lookup table for FST.loc
 
 _ASTS_LEAF_CLASSDEF      = frozenset([ClassDef])
 _ASTS_LEAF_SCOPE_SYMBOLS = ASTS_LEAF_DEF | ASTS_LEAF_TYPE_PARAM | {Name, arg, AugAssign, Import, ImportFrom, Nonlocal,
-                                                                   Global}  # used in scope_symbols() to optimize walk a tiny bit
+                                                                   Global, ExceptHandler, MatchAs, MatchStar,
+                                                                   MatchMapping}  # used in scope_symbols() to optimize walk a tiny bit
 
 _ASTS_LEAF_EXPR_CHAIN_OP_OR_CTX = (ASTS_LEAF_EXPR_CHAIN | ASTS_LEAF_EXPR_CONTEXT | ASTS_LEAF_BOOLOP | ASTS_LEAF_OPERATOR
                                    | ASTS_LEAF_UNARYOP | ASTS_LEAF_CMPOP)
@@ -3972,6 +3975,12 @@ class FST:
 
             elif a_cls in ASTS_LEAF_TYPE_PARAM:  # these will only be returned for top-level node so their arg is part of our scope
                 name = a.name
+                syms = syms_store
+
+            elif a_cls in (ExceptHandler, MatchAs, MatchStar, MatchMapping):  # names bound by `except E as name`, `case ... as name`, `case [*name]` and `case {**name}`
+                if (name := a.rest if a_cls is MatchMapping else a.name) is None:
+                    continue
+
                 syms = syms_store
 
             else:
